@@ -29,6 +29,13 @@ func num(f float64) string {
 	return r.Num().String() + "/" + r.Denom().String()
 }
 
+func dashIfEmpty(s string) string {
+	if s == "" {
+		return "-"
+	}
+	return s
+}
+
 type engineCtx struct {
 	id        string
 	model     nextroute.Model
@@ -145,7 +152,7 @@ func (c *engineCtx) snapshot(step int, sol nextroute.Solution) {
 			fmt.Fprintf(out, "%s cell %d %d %s tr %s ct %s a %s s %s e %s L %s D %s W %s P %d\n", p, vi, i, ids[i],
 				num(s.TravelDurationValue()), num(s.CumulativeTravelDurationValue()),
 				num(s.ArrivalValue()), num(s.StartValue()), num(s.EndValue()),
-				strings.Join(lv, ","), d, w, s.Position())
+				dashIfEmpty(strings.Join(lv, ",")), d, w, s.Position())
 		}
 	}
 	fmt.Fprintf(out, "%s planned %s\n", p, collKeys(sol.PlannedPlanUnits()))
